@@ -172,7 +172,9 @@ class FieldArrayModel(FieldCompositeModel):
         return result_bits
         
     def build_sum_expr(self, btor, ctx_width=-1):
-        if self.sum_expr_btor is None:
+        if self.sum_expr_btor is None or self.sum_expr_btor.btor is not btor:
+            # (Re)build when there is no cached node, or the 
+            # cached node belongs to a different solver instance
             self.sum_expr_btor = self.get_sum_expr().build(btor, ctx_width)
         return self.sum_expr_btor
     
@@ -198,7 +200,7 @@ class FieldArrayModel(FieldCompositeModel):
         return self.product_expr
         
     def build_product_expr(self, btor, ctx_width=-1):
-        if self.product_expr_btor is None:
+        if self.product_expr_btor is None or self.product_expr_btor.btor is not btor:
             self.product_expr_btor = self.get_product_expr().build(btor, ctx_width)
         return self.product_expr_btor    
         
